@@ -502,6 +502,13 @@ impl Qcow2Header {
         if (buf.len() / cluster_size) < clusters as usize {
             return Err("buffer is too small".into());
         }
+        // and the first block of the l1 table, which is zeroed below
+        if (l1_table.0 as usize)
+            .checked_add(block_size)
+            .map_or(true, |end| end > buf.len())
+        {
+            return Err("buffer is too small".into());
+        }
 
         let start = rc_table.0 as usize;
         let end = start + ((rc_table.1 as usize) << cluster_bits);
